@@ -10,6 +10,7 @@ structure St where
   pool : PoolSys := PoolSys.init
   fd   : FdSys := FdSys.init
   lt   : LtSys := LtSys.init
+  poolBase : Nat := 0    -- `nextBlk` when the current pool was created (block labels on the M line are relative to it)
 
 def maxObj : Nat := 1000
 def maxVal : Nat := 1000000
@@ -65,16 +66,59 @@ def parseAct (w : String) (toks : Array Token) : Option CbAct :=
     | _ => none
   else do pure (.free (toks.getD (← nat? w toks.size) {}))
 
+/-- callback actions that may throw: `xO` = `alloc(O)` with the next `operator new` failing, the `bad_alloc` caught inside
+the callback; `XO` = the same, the exception leaves the callback (and `foreach`); `e` / `E` = `reserve(2^63)` throwing
+`length_error`, caught / not caught.  g++ evaluates `allocPos()` before `allocId()`: `idAdvanced = false` (the M line
+carries `lastid`; the theorems cover both orders) -/
+def parseActX (w : String) (toks : Array Token) : Option CbActX :=
+  if w == "e" then some (.throwing false true)
+  else if w == "E" then some (.throwing false false)
+  else if w.startsWith "x" then do pure (.allocOom (← nat? (w.drop 1).toString maxObj) false true)
+  else if w.startsWith "X" then do pure (.allocOom (← nat? (w.drop 1).toString maxObj) false false)
+  else do pure (.act (← parseAct w toks))
+
 /-- `k:act,k:act,…` → (invocation number, action) -/
-def parseScript (w : String) (toks : Array Token) : Option (List (Nat × CbAct)) :=
+def parseScript (w : String) (toks : Array Token) : Option (List (Nat × CbActX)) :=
   if w == "-" then some [] else
   (w.splitOn ",").mapM fun item =>
     match item.splitOn ":" with
-    | [k, a] => do pure (← nat? k 100000, ← parseAct a toks)
+    | [k, a] => do pure (← nat? k 100000, ← parseActX a toks)
     | _ => none
 
-def scriptFn (ps : List (Nat × CbAct)) : Nat → List CbAct :=
+def scriptFn (ps : List (Nat × CbActX)) : Nat → List CbActX :=
   fun k => (ps.filter (·.1 = k)).map (·.2)
+
+/-- the tokens the successful `alloc`s of a history return, in order (a null token for an `out_of_range`) -/
+def traceTokens (c : Cab) : List CabOpX → List Token
+  | [] => []
+  | .op (.act (.alloc o)) :: xs => ((c.alloc o).2.getD {}) :: traceTokens (c.alloc o).1 xs
+  | x :: xs => traceTokens (c.stepX x) xs
+
+/-- tokens DERIVED from the cabinet's own state and from an issued token `t` (lesson (g)): the next token to be
+issued, ids around the id counter, neighbours of `t`'s id, positions at / beyond the end, the free-list head … -/
+def deriveTok (c : CabA) (toks : Array Token) (kind : String) (i : Nat) : Option Token := do
+  let t ← toks[i]?
+  let L := c.lastId
+  let F := c.firstFree
+  let S := c.cells.size
+  let w := Token.word
+  match kind with
+  | "next" => some (Token.ctor ((L + 1) % w) (if F ≠ sizeMax then F else S))
+  | "nextid" => some (Token.ctor ((L + 1) % w) t.pos)
+  | "lastid" => some (Token.ctor L t.pos)
+  | "idm1" => some (Token.ctor ((t.id + w - 1) % w) t.pos)
+  | "idp1" => some (Token.ctor ((t.id + 1) % w) t.pos)
+  | "prev" =>
+      -- the previous occupant of `t`'s cell: the latest earlier token with the same position
+      let js := (List.range i).reverse.filter fun j => match toks[j]? with | some u => u.id != 0 && u.pos == t.pos | none => false
+      (match js with | j :: _ => toks[j]? | [] => some t)
+  | "zero" => some (Token.ctor 0 t.pos)
+  | "posS" => some (Token.ctor t.id S)
+  | "posS1" => some (Token.ctor t.id ((S + w - 1) % w))
+  | "posmax" => some (Token.ctor t.id sizeMax)
+  | "posF" => some (Token.ctor t.id F)
+  | "swap" => some (Token.ctor t.pos t.id)
+  | _ => none
 
 /-- index of the first earlier token equal to each of `new` (tokens handed out twice) -/
 def countDups (old : Array Token) (new : List Token) : Nat :=
@@ -184,8 +228,25 @@ partial def cabLine (s : St) (ws : List String) : Option (St × List String) :=
                                   "P clear " ++ sizeStr c ++ " empty=" ++ bit (c.size == 0)])
   | ["size"] => some (s, ["P " ++ sizeStr s.cab ++ " empty=" ++ bit (s.cab.size == 0)])
   | ["reserve", n] => do
-      let _ ← nat? n 100000
-      pure (s, ["P ok"])
+      -- below 100000: really reserved; from 2^32 on (more than any capacity reached) the call THROWS and leaves the cabinet as it was:
+      -- `length_error` above `max_size()`, `bad_alloc` otherwise (the harness makes `operator new` fail)
+      let n ← u64? n
+      if n ≥ 100000 ∧ n < 2 ^ 32 then none          -- (a capacity that large can exist after the bulk ops: the call might not allocate)
+      if n < 100000 then pure (s, ["P ok"])
+      else pure (s, ["B reserve-throws", "P reserve threw " ++ sizeStr s.cab, "M " ++ (if (s.cab.toCab.reserve n).2 then "length_error" else "bad_alloc")])
+  | ["opd", what, kind, i] => do
+      let i ← nat? i s.toks.size
+      let t ← deriveTok s.cab s.toks kind i
+      let tag := "B derived-" ++ kind ++ "-" ++ lookupTag s.cab t
+      match what with
+      | "at" => pure (s, [tag, "P at=" ++ toString (s.cab.at' t)])
+      | "free" =>
+          let (c, o) := s.cab.free t
+          pure ({ s with cab := c }, [tag, "P free=" ++ toString o ++ " " ++ sizeStr c])
+      | "upd" =>
+          let (c, b) := s.cab.update t 77
+          pure ({ s with cab := c }, [tag, "P upd=" ++ bit b])
+      | _ => none
   | ["scan"] =>
       let vals := s.toks.toList.map fun t => toString (s.cab.at' t)
       let stale := s.toks.toList.filter fun t => (s.cab.lookup t).isNone
@@ -195,22 +256,29 @@ partial def cabLine (s : St) (ws : List String) : Option (St × List String) :=
       let ps ← parseScript scr s.toks
       let f := scriptFn ps
       let c0 := s.cab.toCab
-      let newToks := c0.actTokens (c0.eachActs f)
-      let (c, visP) := c0.foreach f
-      let vis := visP.map (·.2)
+      -- `foreachX` is `foreach` when no call throws (C08_cab_each_throw (2))
+      let r := c0.foreachX f
+      let newToks := traceTokens c0 r.trace
+      let c := r.cab
+      let vis := r.vis.map (·.2)
       -- visiting order / reach when callbacks change other entries depend on cell reuse: M line
       let sorted := (vis.toArray.qsort (· < ·)).toList
+      let isAct (p : Nat × CbActX) (g : CbAct → Bool) : Bool := match p.2 with | .act a => g a | _ => false
+      let threw := r.trace.any fun x => match x with | .allocFail _ => true | _ => false
       let tags := (if c.count < s.cab.count then ["each-removed"] else ["each-plain"]) ++
-        (if ps.any (fun p => match p.2 with | .alloc _ => true | _ => false) then ["each-cb-alloc"] else []) ++
-        (if ps.any (fun p => p.2 == .clear) then ["each-cb-clear"] else []) ++
-        (if ps.any (fun p => p.2 == .update {} 0) then ["each-cb-reentrant-read"] else []) ++
-        (if c.cells.length > c0.cells.length then ["each-cb-grew"] else [])
+        (if ps.any (fun p => isAct p fun a => match a with | .alloc _ => true | _ => false) then ["each-cb-alloc"] else []) ++
+        (if ps.any (fun p => isAct p (· == .clear)) then ["each-cb-clear"] else []) ++
+        (if ps.any (fun p => isAct p (· == .update {} 0)) then ["each-cb-reentrant-read"] else []) ++
+        (if c.cells.length > c0.cells.length then ["each-cb-grew"] else []) ++
+        (if threw ∧ ¬ r.aborted then ["each-cb-threw-caught"] else []) ++
+        (if r.aborted then ["each-cb-threw-aborted"] else []) ++
+        (if ps.any (fun p => match p.2 with | .allocOom _ _ _ => true | _ => false) ∧ ¬ threw then ["each-cb-oom-no-growth"] else [])
       pure ({ s with cab := CabA.ofCab c, toks := s.toks ++ newToks.toArray },
             ["B " ++ " ".intercalate tags,
              "P each " ++ (if ps.isEmpty then commaList (sorted.map toString) else "*") ++ " " ++ sizeStr (CabA.ofCab c) ++
-               " deadvisit=0 dup=" ++ toString (countDups s.toks newToks),
+               " deadvisit=0 dup=" ++ toString (countDups s.toks newToks) ++ " abort=" ++ bit r.aborted,
              "M order " ++ commaList (vis.map toString) ++ " toks=" ++
-               commaList (newToks.map fun t => toString t.id ++ "." ++ toString t.pos)])
+               commaList (newToks.map fun t => toString t.id ++ "." ++ toString t.pos) ++ " lastid=" ++ toString c.lastId])
   | _ => none
 
 def tokStr (t : Token) : String :=
@@ -261,12 +329,19 @@ def tokLine (ws : List String) : Option (List String) :=
             commaList (uniq.map fun t => toString t.id ++ "." ++ toString t.pos)]
   | _ => none
 
-def poolStatus (s : PoolSys) : String :=
+def poolStatusP (s : PoolSys) : String :=
   let vals := s.slots.map fun o => match o with | none => "-" | some (_, v) => toString v
   let st := s.pool.stat
   "P pool ctor=" ++ toString s.pool.ctor ++ " dtor=" ++ toString s.pool.dtor ++ " vals=" ++ ",".intercalate vals ++
   " stat=" ++ toString st.allocT ++ "/" ++ toString st.freeT ++ "/" ++ toString st.peakA ++ "/" ++ toString st.peakF ++ " alias=0 leaked=" ++ toString s.pool.leaked ++
   " thrown=" ++ toString s.pool.thrown
+
+/-- which block every live object sits in (labels in order of first use since the pool was created): only while
+the pool never gives a block back (`keep` = max), otherwise the allocator may hand an address out twice -/
+def poolBlocks (s : PoolSys) (base : Nat) : String :=
+  if s.pool.keep = sizeMax then
+    "M blk=" ++ ",".intercalate (s.slots.map fun o => match o with | none => "-" | some (b, _) => toString (b - base))
+  else "M blk=-"
 
 /-- `A h v` … `a` = an alloc whose constructor makes the calls in between; `F h` … `f` = a free whose
 destructor does; must be well nested, depth ≤ 16 -/
@@ -285,6 +360,7 @@ def parseEvs : List String → List Bool → Nat → Option (List PEv)
       let r ← parseEvs rest (false :: st) fuel
       pure (.fbeg h :: r)
   | "a" :: rest, true :: st, fuel => do pure (.aend :: (← parseEvs rest st fuel))
+  | "t" :: rest, true :: st, fuel => do pure (.athr :: (← parseEvs rest st fuel))       -- the constructor throws (after its nested calls)
   | "f" :: rest, false :: st, fuel => do pure (.fend :: (← parseEvs rest st fuel))
   | _, _, _ => none
 
@@ -314,6 +390,13 @@ def evTag (s : PoolSys) : PEv → List String
       | .freeF _ _ :: _ => [if s.pool.freeNum < s.pool.keep then "pool-park" else "pool-release"]
       | _ => []
   | .aend => []
+  | .athr =>
+      if s.skip > 0 then [] else
+      match s.stack with
+      | .allocF _ _ _ :: .allocF _ _ _ :: _ => ["pool-throw-nested-in-ctor"]
+      | .allocF _ _ _ :: .freeF _ _ :: _ => ["pool-throw-nested-in-dtor"]
+      | .allocF _ _ _ :: [] => ["pool-ctor-throw-after-nested"]
+      | _ => []
 
 def runEvsTags (s : PoolSys) : List PEv → PoolSys × List String
   | [] => (s, [])
@@ -330,7 +413,7 @@ def poolLine (s : St) (ws : List String) : Option (St × List String) :=
       match s.pool.slots[h]? with
       | some none =>
           let (p, tags) := runEvsTags s.pool [.abeg h v, .aend]
-          pure ({ s with pool := p }, ["B " ++ " ".intercalate tags, poolStatus p])
+          pure ({ s with pool := p }, ["B " ++ " ".intercalate tags, poolStatusP p, poolBlocks p s.poolBase])
       | _ => pure (s, ["B pool-busy", "P busy"])
   | ["allocthrow", h, v] => do
       -- `alloc(v)` whose constructor throws (between calls only)
@@ -339,29 +422,29 @@ def poolLine (s : St) (ws : List String) : Option (St × List String) :=
       match s.pool.slots[h]? with
       | some none =>
           let p := s.pool.step (.athrow h v)
-          pure ({ s with pool := p }, ["B pool-ctor-throw-" ++ (if s.pool.pool.parked.isEmpty then "malloc" else "parked"), poolStatus p])
+          pure ({ s with pool := p }, ["B pool-ctor-throw-" ++ (if s.pool.pool.parked.isEmpty then "malloc" else "parked"), poolStatusP p, poolBlocks p s.poolBase])
       | _ => pure (s, ["B pool-busy", "P busy"])
   | ["free", h] => do
       let h ← nat? h nPoolSlots
       match s.pool.slots[h]? with
       | some (some _) =>
           let (p, tags) := runEvsTags s.pool [.fbeg h, .fend]
-          pure ({ s with pool := p }, ["B " ++ " ".intercalate tags, poolStatus p])
+          pure ({ s with pool := p }, ["B " ++ " ".intercalate tags, poolStatusP p, poolBlocks p s.poolBase])
       | _ => pure (s, ["B pool-none", "P none"])
   | "x" :: toks => do
       if toks.length > 400 then none
       let evs ← parseEvs toks [] 0
       let (p, tags) := runEvsTags s.pool evs
-      pure ({ s with pool := p }, ["B pool-x " ++ " ".intercalate tags, poolStatus p])
+      pure ({ s with pool := p }, ["B pool-x " ++ " ".intercalate tags, poolStatusP p, poolBlocks p s.poolBase])
   | ["new", k] => do
       let k ← if k == "max" then some sizeMax else u64? k
       let p := s.pool.step (.renew k)
-      pure ({ s with pool := p }, ["B pool-new" ++ (if k ≥ 2 ^ 31 ∧ k < sizeMax then " pool-keep>=2^31" else ""), poolStatus p])
+      pure ({ s with pool := p, poolBase := p.pool.nextBlk }, ["B pool-new" ++ (if k ≥ 2 ^ 31 ∧ k < sizeMax then " pool-keep>=2^31" else ""), poolStatusP p, poolBlocks p p.pool.nextBlk])
   | ["drop", k] => do
       let k ← if k == "max" then some sizeMax else u64? k
       let p := s.pool.step (.drop k)
-      pure ({ s with pool := p }, [if s.pool.liveBlocks.isEmpty then "B pool-drop-empty" else "B pool-drop-live", poolStatus p])
-  | ["stat"] => some (s, [poolStatus s.pool])
+      pure ({ s with pool := p, poolBase := p.pool.nextBlk }, [if s.pool.liveBlocks.isEmpty then "B pool-drop-empty" else "B pool-drop-live", poolStatusP p, poolBlocks p p.pool.nextBlk])
+  | ["stat"] => some (s, [poolStatusP s.pool, poolBlocks s.pool s.poolBase])
   | ["bulk", n, k, m] => do
       -- a pool of its own: n objects alive at once, all freed in allocation order, then m more
       let n ← nat? n (maxBulk + 1)
@@ -477,6 +560,20 @@ def parseFd (ws : List String) : Option FdOp :=
   | ["cloexec", h] => do pure (.setCloexec (← sl h))
   | _ => none
 
+/-- `fd x …`: a program with re-entrant close functions.  Items are operations written with dots (`close.0`,
+`cpa.1.0`, `open.2.fn`); `[ … ]` after `close.h` / `reset.h` / `new.h` is what the close function does when THAT
+operation calls it.  Returned in pre-order with depths (`FdSys.runD`) -/
+def parseFdTree : List String → Nat → Bool → Option (List (Nat × FdOp))
+  | [], d, _ => if d = 0 then some [] else none
+  | "[" :: rest, d, canOpen => if canOpen ∧ d < 8 then parseFdTree rest (d + 1) false else none
+  | "]" :: rest, d, _ => if d > 0 then parseFdTree rest (d - 1) false else none
+  | w :: rest, d, _ => do
+      let op ← parseFd (w.splitOn ".")
+      if ¬ op.ok then none
+      let canOpen := match op with | .close _ | .reset _ | .fresh _ => true | _ => false
+      let r ← parseFdTree rest d canOpen
+      pure ((d, op) :: r)
+
 def fdLine (s : St) (ws : List String) : Option (St × List String) := do
   -- fault schedule for `::close`: the next n calls really close and then report EINTR / EIO.  The code
   -- discards the result of `::close` (fd.cpp:58,98), so the model's step does not depend on it
@@ -485,6 +582,22 @@ def fdLine (s : St) (ws : List String) : Option (St × List String) := do
       let _ ← nat? n 100
       if e != "eintr" ∧ e != "eio" then none
       return (s, ["B closefail", "P ok"])
+  | _ => pure ()
+  match ws with
+  | "x" :: toks =>
+      if toks.length > 200 then none
+      let prog ← parseFdTree toks 0 false
+      let opens := prog.countP fun x => match x.2 with | .opn _ _ | .openFile _ true => true | _ => false
+      if s.fd.nextRes + opens > 200 then none
+      let flat := s.fd.flatD [] prog
+      -- the operations that take place, one after the other (C08_fd_reentrant): tags and system calls of each
+      let r := flat.foldl (fun (acc : FdSys × List String × List Sys) op =>
+        (acc.1.step op, acc.2.1 ++ [fdTag acc.1 op], acc.2.2 ++ acc.1.calls op)) (s.fd, [], [])
+      let f := s.fd.runD [] prog
+      let nested := prog.any fun x => x.1 > 0
+      let ran := flat.length
+      return ({ s with fd := f }, ("B fd-x" ++ (if nested ∧ ran > (prog.filter (·.1 == 0)).length then " fd-x-callback-ran" else "") ++
+        (if prog.any (fun x => x.1 > 1) ∧ ran = prog.length then " fd-x-depth2" else "") ++ " " ++ " ".intercalate r.2.1) :: fdStatus s.fd f r.2.2)
   | _ => pure ()
   let op ← parseFd ws
   if ¬ op.ok then none
